@@ -5,8 +5,15 @@
 
    They are strict: a hunk applies exactly at the left line numbers it names (GNU patch also
    searches nearby offsets), old lines must match, ranges must agree with the hunk body.
-   The file being patched is [l]; [pos] old lines have been consumed and [rem] = l[pos:].
-   Result None = the patch does not apply.  Definitions only. *)
+   With [strict = true] the numbers that describe the NEW file must be right as well: the
+   right-hand range of a change command / hunk must be exactly where its new lines land in the
+   output (GNU patch only reports these numbers; the formats define them), line counts of both
+   ranges must agree with the body, an add command has no old lines and a delete command no new
+   ones.  [strict = false] is the reading that ignores the right-hand numbers (kept for the
+   driver's diagnosis: "applies only when the new-file numbers are ignored").
+   The file being patched is [l]; [pos] old lines have been consumed, [rem] = l[pos:] and [opos]
+   lines of the new file have been produced.  Result None = the patch does not apply.
+   Definitions only. *)
 From Coq Require Import NArith ZArith List Bool.
 Import ListNotations.
 From Mds Require Export Mdiff.FormatLines.
@@ -46,15 +53,15 @@ Fixpoint take_prefixed (pfx : bytes) (p : list line) : list line * list line :=
 
 (* ---------------------------------------------------------------- normal *)
 (* change commands  LaR (add after line L),  FcT (change lines F),  RdL (delete lines R) *)
-Fixpoint index_cmd (s : bytes) : option (bytes * N) :=
+Fixpoint index_cmd (s : bytes) : option (bytes * N * bytes) :=
   match s with
   | [] => None
   | b :: s' =>
-    if N.eqb b 97 || N.eqb b 99 || N.eqb b 100 then Some ([], b)
-    else match index_cmd s' with Some (x, c) => Some (b :: x, c) | None => None end
+    if N.eqb b 97 || N.eqb b 99 || N.eqb b 100 then Some ([], b, s')
+    else match index_cmd s' with Some (x, c, y) => Some (b :: x, c, y) | None => None end
   end.
 
-Fixpoint apply_normal_loop (fuel : nat) (p : list line) (pos : Z) (rem : list line)
+Fixpoint apply_normal_loop (strict : bool) (fuel : nat) (p : list line) (pos opos : Z) (rem : list line)
   : option (list line) :=
   match fuel with
   | O => None
@@ -64,10 +71,9 @@ Fixpoint apply_normal_loop (fuel : nat) (p : list line) (pos : Z) (rem : list li
     | cmd_line :: p1 =>
       match index_cmd cmd_line with
       | None => None
-      | Some (range, cmd) =>
-        match parse_range range with
-        | None => None
-        | Some (lo, hi) =>
+      | Some (range, cmd, nrange) =>
+        match parse_range range, parse_range nrange with
+        | Some (lo, hi), Some (nlo, nhi) =>
           let '(del, p2) := take_prefixed s_lt p1 in
           let p3 := match p2 with
                     | l :: p' => if bytes_eqb l s_sep then p' else p2
@@ -75,28 +81,39 @@ Fixpoint apply_normal_loop (fuel : nat) (p : list line) (pos : Z) (rem : list li
                     end in
           let '(add, p4) := take_prefixed s_gt p3 in
           if N.eqb cmd 97 then
-            (* add after line lo *)
-            if (lo <? pos) || (llen rem <? lo - pos) then None
-            else match apply_normal_loop f p4 lo (drop_z (lo - pos) rem) with
+            (* LaR: add after old line L; the new lines are lines R of the new file *)
+            let nfirst := opos + (lo - pos) in
+            if (lo <? pos) || (llen rem <? lo - pos)
+               || (strict && (negb (hi =? lo) || negb (is_nil del)
+                              || negb (nlo =? nfirst + 1) || negb (nhi =? nfirst + llen add)))
+            then None
+            else match apply_normal_loop strict f p4 lo (nfirst + llen add) (drop_z (lo - pos) rem) with
                  | Some out => Some (take_z (lo - pos) rem ++ add ++ out)
                  | None => None
                  end
           else
-            (* lines lo..hi are replaced (c) or deleted (d); they must be [del] *)
+            (* FcT: old lines F become new lines T;  RdL: old lines R are deleted, they would have
+               followed new line L.  The old lines must be [del]. *)
+            let nfirst := opos + (lo - 1 - pos) in
             if (lo - 1 <? pos) || (hi <? lo - 1) || (llen rem <? hi - pos)
                || negb (lines_eqb (take_z (hi - (lo - 1)) (drop_z (lo - 1 - pos) rem)) del)
+               || (strict && (if N.eqb cmd 100
+                              then negb (nlo =? nfirst) || negb (nhi =? nlo) || negb (is_nil add)
+                              else negb (nlo =? nfirst + 1) || negb (nhi =? nfirst + llen add)))
             then None
-            else match apply_normal_loop f p4 hi (drop_z (hi - pos) rem) with
+            else match apply_normal_loop strict f p4 hi (nfirst + llen add) (drop_z (hi - pos) rem) with
                  | Some out => Some (take_z (lo - 1 - pos) rem ++ add ++ out)
                  | None => None
                  end
+        | _, _ => None
         end
       end
     end
   end.
 
-Definition apply_normal (l : list line) (p : list line) : option (list line) :=
-  apply_normal_loop (S (length p)) p 0 l.
+Definition apply_normal_gen (strict : bool) (l : list line) (p : list line) : option (list line) :=
+  apply_normal_loop strict (S (length p)) p 0 0 l.
+Definition apply_normal := apply_normal_gen true.
 
 (* ---------------------------------------------------------------- unified *)
 (* "s" (one line: count 1) or "s,c"; an empty range (c = 0) names the line BEFORE it *)
@@ -149,7 +166,7 @@ Fixpoint apply_ubody (p : list line) (rem : list line) (old new : Z)
     end
   end.
 
-Fixpoint apply_uhunks (fuel : nat) (p : list line) (pos : Z) (rem : list line)
+Fixpoint apply_uhunks (strict : bool) (fuel : nat) (p : list line) (pos opos : Z) (rem : list line)
   : option (list line) :=
   match fuel with
   | O => None
@@ -161,15 +178,18 @@ Fixpoint apply_uhunks (fuel : nat) (p : list line) (pos : Z) (rem : list line)
       | f0 :: f1 :: f2 :: f3 :: _ =>
         if negb (bytes_eqb f0 s_atat) || negb (bytes_eqb f3 s_atat) then None else
         match u_range (trim_prefix s_minus f1), u_range (trim_prefix s_plus f2) with
-        | Some (ls, lc), Some (_, rc) =>
-          (* 0-based index of the first old line of the hunk; an empty hunk follows line ls *)
+        | Some (ls, lc), Some (rs, rc) =>
+          (* 0-based index of the first old line of the hunk; an empty hunk follows line ls.
+             The same rule for the new file: its lines land at index [nfirst] of the output. *)
           let first := if lc =? 0 then ls else ls - 1 in
-          if (first <? pos) || (llen rem <? first - pos) then None else
+          let nfirst := if rc =? 0 then rs else rs - 1 in
+          if (first <? pos) || (llen rem <? first - pos)
+             || (strict && negb (nfirst =? opos + (first - pos))) then None else
           match apply_ubody p1 (drop_z (first - pos) rem) 0 0 with
           | None => None
           | Some (out, o, n, rem', p2) =>
             if negb (o =? lc) || negb (n =? rc) then None else
-            match apply_uhunks f p2 (first + o) rem' with
+            match apply_uhunks strict f p2 (first + o) (opos + (first - pos) + n) rem' with
             | Some out' => Some (take_z (first - pos) rem ++ out ++ out')
             | None => None
             end
@@ -187,8 +207,9 @@ Fixpoint skip_uheader (p : list line) : list line :=
   | [] => []
   end.
 
-Definition apply_unified (l : list line) (p : list line) : option (list line) :=
-  let p' := skip_uheader p in apply_uhunks (S (length p')) p' 0 l.
+Definition apply_unified_gen (strict : bool) (l : list line) (p : list line) : option (list line) :=
+  let p' := skip_uheader p in apply_uhunks strict (S (length p')) p' 0 0 l.
+Definition apply_unified := apply_unified_gen true.
 
 (* ---------------------------------------------------------------- context *)
 Definition has_suffix (sfx s : bytes) : bool := has_prefix (rev sfx) (rev s).
@@ -219,7 +240,7 @@ Definition sec_text (sec : list (bytes * line)) : list line := map snd sec.
 Definition sec_without (tag : bytes) (sec : list (bytes * line)) : list line :=
   map snd (filter (fun e => negb (bytes_eqb (fst e) tag)) sec).
 
-Fixpoint apply_cchunks (fuel : nat) (p : list line) (pos : Z) (rem : list line)
+Fixpoint apply_cchunks (strict : bool) (fuel : nat) (p : list line) (pos opos : Z) (rem : list line)
   : option (list line) :=
   match fuel with
   | O => None
@@ -237,27 +258,34 @@ Fixpoint apply_cchunks (fuel : nat) (p : list line) (pos : Z) (rem : list line)
         | Some (lo, hi) =>
           match take_section is_new_range p2 with
           | None | Some (_, []) => None
-          | Some (old_sec, _ :: p3) =>       (* the "--- r ----" line is skipped *)
-            match take_section (fun l => bytes_eqb l s_stars15) p3 with
-            | None => None
-            | Some (new_sec, p4) =>
+          | Some (old_sec, nrange :: p3) =>       (* the "--- r ----" line *)
+            match parse_range (middle nrange), take_section (fun l => bytes_eqb l s_stars15) p3 with
+            | Some (nlo, nhi), Some (new_sec, p4) =>
               (* an omitted section is reconstructed from the context lines of the other *)
               let old_lines := if is_nil old_sec then sec_without [43; 32]%N new_sec
                                else sec_text old_sec in
               let new_lines := if is_nil new_sec then sec_without [45; 32]%N old_sec
                                else sec_text new_sec in
               (* old lines are l[lo-1 : hi]; with no old lines: "s,s-1" is the empty range
-                 before line s, a bare number names the line before the insertion *)
+                 before line s, a bare number names the line before the insertion.  The same
+                 rule for the new range and the output. *)
               let first := if is_nil old_lines then (if hi <? lo then lo - 1 else lo)
                            else lo - 1 in
+              let nfirst := if is_nil new_lines then (if nhi <? nlo then nlo - 1 else nlo)
+                            else nlo - 1 in
               let n := llen old_lines in
+              let m := llen new_lines in
               if (first <? pos) || (llen rem <? first - pos + n)
                  || negb (lines_eqb (take_z n (drop_z (first - pos) rem)) old_lines)
+                 || (strict && (negb (hi - first =? n) || negb (nhi - nfirst =? m)
+                                || negb (nfirst =? opos + (first - pos))))
               then None
-              else match apply_cchunks f p4 (first + n) (drop_z (first - pos + n) rem) with
+              else match apply_cchunks strict f p4 (first + n) (opos + (first - pos) + m)
+                           (drop_z (first - pos + n) rem) with
                    | Some out => Some (take_z (first - pos) rem ++ new_lines ++ out)
                    | None => None
                    end
+            | _, _ => None
             end
           end
         end
@@ -265,14 +293,14 @@ Fixpoint apply_cchunks (fuel : nat) (p : list line) (pos : Z) (rem : list line)
     end
   end.
 
-Fixpoint skip_cheader (p : list line) : list line :=
+(* the file header: a line "*** from-file..." followed by a line "--- to-file...", before the
+   first hunk (every hunk starts with the line of 15 stars, which does not start with "*** ") *)
+Definition skip_cheader (p : list line) : list line :=
   match p with
-  | l :: p' =>
-    if (has_prefix s_sss l && negb (has_suffix s_4stars l))
-       || (has_prefix s_mmm l && negb (has_suffix s_4dashes l))
-    then skip_cheader p' else p
-  | [] => []
+  | l1 :: l2 :: p' => if has_prefix s_sss l1 && has_prefix s_mmm l2 then p' else p
+  | _ => p
   end.
 
-Definition apply_context (l : list line) (p : list line) : option (list line) :=
-  let p' := skip_cheader p in apply_cchunks (S (length p')) p' 0 l.
+Definition apply_context_gen (strict : bool) (l : list line) (p : list line) : option (list line) :=
+  let p' := skip_cheader p in apply_cchunks strict (S (length p')) p' 0 0 l.
+Definition apply_context := apply_context_gen true.
